@@ -1998,18 +1998,6 @@ impl Parser {
         ))
     }
 
-    pub fn list_type_open_only(input: Node) -> Result<ListType> {
-        let ty_node = input
-            .children()
-            .single()? // Rule: open_ended_type
-            .children()
-            .single()?; // Rule: type
-
-        let ty = Self::r#type(ty_node)?;
-
-        Ok(ListType::Open(Box::new(ty)))
-    }
-
     pub fn list_type(input: Node) -> Result<ListType> {
         let children = input.children();
 
@@ -2021,13 +2009,19 @@ impl Parser {
                     let ty = Self::r#type(child)?;
                     type_vec.push(ty);
                 }
-                // the grammar lets the last element be `T...`; a list type that is both fixed-shape and growable is not a type of the language
-                Rule::open_ended_type => {
-                    return Err(new_err(
-                        child.as_span(),
-                        &child.user_data().get_source_file_name(),
-                        "a list type is either fixed-shape (`[A, B]`) or growable (`[T...]`); `...` after the last of several element types is not supported".to_owned(),
-                    ));
+                // `...` closes the list of element types: `[T...]` is the growable list of T; behind any other number of element types it
+                // is not a type of the language
+                Rule::open_ended_marker => {
+                    if type_vec.len() != 1 {
+                        return Err(new_err(
+                            child.as_span(),
+                            &child.user_data().get_source_file_name(),
+                            "a list type is either fixed-shape (`[A, B]`) or growable (`[T...]`); `...` is only supported after a single element type".to_owned(),
+                        ));
+                    }
+
+                    let ty = type_vec.remove(0);
+                    return Ok(ListType::Open(Box::new(ty)));
                 }
                 other_rule => unreachable!("{other_rule:?}"),
             }
@@ -2055,9 +2049,6 @@ impl Parser {
         let x = match ty.as_rule() {
             Rule::function_type => SuccessTypeSearchResult::Owned(Cow::Owned(Function(
                 Self::function_type(ty).details(span, &file_name, UNKNOWN_TYPE)?,
-            ))),
-            Rule::list_type_open_only => SuccessTypeSearchResult::Owned(Cow::Owned(List(
-                Self::list_type_open_only(ty).details(span, &file_name, UNKNOWN_TYPE)?,
             ))),
             Rule::list_type => SuccessTypeSearchResult::Owned(Cow::Owned(List(
                 Self::list_type(ty).details(span, &file_name, UNKNOWN_TYPE)?,
